@@ -1058,7 +1058,11 @@ class Interp(Engine):
             saved = dict(fr.env)
             vs = []
             kinds = {}
+            trig_node = None
             for kw in node.keywords:
+                if kw.arg == "trigger":
+                    trig_node = kw.value
+                    continue
                 kinds[kw.arg] = self.parse_type(kw.value.value if isinstance(kw.value, ast.Constant) else kw.value, fr.module)
             for a in lam.args.args:
                 kind = kinds.get(a.arg, KInt)
@@ -1066,11 +1070,18 @@ class Interp(Engine):
                 st.counter += 1
                 vs.append(v)
                 fr.env[a.arg] = SV(kind, v)
+            pats = None
             try:
                 body = self.truth(st, self.eval(st, lam.body))
+                if trig_node is not None:
+                    tv = self.eval(st, trig_node.body if isinstance(trig_node, ast.Lambda) else trig_node)
+                    if tv.term is not None:
+                        pats = [tv.term]
             finally:
                 fr.env = saved
-            return SV(KBool, z3.ForAll(vs, body) if nm == "forall" else z3.Exists(vs, body))
+            if nm == "forall":
+                return SV(KBool, qforall(vs, body, patterns=pats))
+            return SV(KBool, z3.Exists(vs, body))
         if nm == "only_fresh_modified":
             # frame: in every heap array that differs from the pre-state, objects allocated before the
             # call are unchanged (the callee only initialises objects it allocated itself)
